@@ -1,10 +1,21 @@
 // Child module of src/line.rs.  Reflow kernels of C10: Line::contract, Line::extend, trim/trailers.
-#![allow(dead_code)]
+#![allow(dead_code, static_mut_refs)]
 use super::*;
 use crate::kv::*;
 use crate::{kv_cover, kv_end};
 
 pub(crate) const SHAPE_SYM: u8 = 2;
+
+/// contract stub for Line::trailers in the shape-concrete extend harness: the number of trailing
+/// default blanks is a constant of the instance there (the harness builds the line that way, and
+/// t_line_trim decides the real trailers() against the same definition); without it CBMC does not
+/// fold the iterator chain over heap cells into a constant and every later Vec length is symbolic
+pub(crate) static mut KV_TRAILERS: usize = 0;
+impl Line {
+    fn kv_trailers_stub(&self) -> usize {
+        unsafe { KV_TRAILERS }
+    }
+}
 
 /// a line of `n` cells; blank[i] = 1: default blank cell, 0: symbolic non-default cell, 2: symbolic
 fn shaped_line(n: usize, blank: [u8; 6], wrapped: bool) -> Line {
@@ -118,6 +129,9 @@ pub(crate) fn t_line_extend(la: usize, lb: usize, len: usize, a_wrapped: bool, b
     let jb = any_in(0, lb - 1);
     let cb = b.cells[jb];
     let needed = len - la;
+    unsafe {
+        KV_TRAILERS = b_trail;
+    }
     let eff = if b_wrapped { lb } else { lb - b_trail }; // cells of b'
     let (done, rest) = a.extend(b, len);
     assert!(a.cells[ja] == ca, "[C10] re-wrapping keeps the head of the line in place");
